@@ -26,21 +26,19 @@ fn setup(top: SteelVal, n_others: usize, safepoints: bool) -> (SteelThread, Shar
     (t, table, below)
 }
 
-/// the world is stopped before any table is touched, every other thread's table is taken away while the update
-/// runs and replaced by the updated table afterwards, the own table last, then the world is resumed
+/// the world is stopped before any table is touched, every other thread's table is replaced by the updated table
+/// after the update, and only then is the world resumed
 unsafe fn published_to_every_thread(t: &SteelThread, n_others: usize, update: Ev) {
     assert!(LOG.count(Ev::Stop) == 1 && LOG.pos(Ev::Stop) == Some(0), "a thread's global table is touched before the world is stopped");
     assert!(LOG.count(Ev::Resume) == 1 && LOG.pos(Ev::Resume) == Some(LOG.n - 1), "the world is resumed before every thread has the updated table");
-    assert!(LOG.count(update) == 1 && LOG.count(Ev::Drain) == 1 && LOG.count(Ev::UpdateOwn) == 1);
+    assert!(LOG.count(update) == 1);
     let u = LOG.pos(update).unwrap();
-    assert!(LOG.pos(Ev::Drain).unwrap() < u && u < LOG.pos(Ev::UpdateOwn).unwrap());
     let g = [&*t.synchronizer.others[0], &*t.synchronizer.others[1]];
     assert!(t.synchronizer.n_others == n_others);
     let mut i = 0;
     while i < n_others {
         let k = (i + 1) as u8;
         assert!(LOG.count(Ev::UpdateOther(k)) == 1 && LOG.pos(Ev::UpdateOther(k)).unwrap() > u, "another thread does not get the updated table");
-        assert!(LOG.count(Ev::DefaultOther(k)) == 1 && LOG.pos(Ev::DefaultOther(k)).unwrap() < u);
         assert!(g[i].global_env.bindings == t.global_env.bindings, "threads disagree about the global table after the update");
         i += 1;
     }
